@@ -15,14 +15,17 @@ compiling.  Nothing is approximated silently.  A target that cannot be located a
 
 THE SUBSET.
   items       `fn` / `const fn` (free, inherent `impl T`, `impl Trait for T`, trait default methods read at a given
-              `Self`), non-generic, by-value / `&self` receivers; `const` / `static` items with integer, bool or
+              `Self`), without type parameters of their own, by-value / `&self` receivers; `&mut self` receivers of
+              functions without a result (see MUTABLE RECEIVERS); functions of generic impls read at a concrete
+              instantiation (see GENERIC IMPLS); `const` / `static` items with integer, bool or
               struct-literal initialisers (evaluated at translation time, `as` wraps, result checked against the
               declared type); a `const` whose initialiser calls a `const fn` (`NaiveDate::BEFORE_MIN`) is read as a
               function without parameters (`def …BEFORE_MIN : Res Int`; compile-time evaluation has the run-time
               semantics, a panic there would be a compile error); `struct T(int)` and `struct T { one field }` are
               represented by that field; `struct T { f: A, g: B, … }` by a generated Lean `structure` whose fields
               have the Lean types of A, B, … (`Int` for integers, newtypes and field-less enums, the generated
-              structure for a nested struct: `NaiveDateTime { date: NaiveDate, time: NaiveTime }`); field-less `enum`s by
+              structure for a nested struct: `NaiveDateTime { date: NaiveDate, time: NaiveTime }`); a unit struct
+              (`struct Utc;`) by Lean's `Unit`, its value `Utc` by `()`; field-less `enum`s by
               their discriminant (an `Int`); `NonZeroI32` & co. by the underlying integer (`get`, `new_unchecked`
               are the identity); references are erased (all values are `Copy`).
   statements  `let` (with tuple / newtype patterns, shadowing), `let mut` with `=`, `+= -= *= /= %= <<= >>= &= |= ^=`
@@ -37,13 +40,50 @@ THE SUBSET.
               (YEAR_TO_FLAGS, MDL_TO_OL, OL_TO_MDL, YEAR_DELTAS: read from Extracted/Tables.lean), struct literals
               (also with a base, `T { f: e, ..base }`: the fields not listed are read from `base`, which is
               evaluated after the listed fields), field access, calls of translated functions and methods, `Some/None`, `try_opt!(e)` and `e?` on Option,
-              `crate::expect(opt, msg)`, `.unwrap()`, `.unwrap_or(d)` on an Option of an integer-represented
+              `crate::expect(opt, msg)`, `.unwrap()`, `.expect("…")` (the method, with a string literal: as
+              `.unwrap()`), `.unwrap_or(d)` on an Option of an integer-represented
               type (`opt.getD d`; `d` is evaluated first, as in Rust), `.is_some()/.is_none()`, `checked_add/sub/mul`,
               `div_euclid/rem_euclid`, `abs`, `debug_assert!/assert!(…)`, `debug_assert_eq!/…_ne!`,
               `panic!/unreachable!`.
-  refused     everything else, in particular: generics, closures, loops, `&mut`, floats, chars / strings as values,
-              `Result`, slices, iterators, trait objects, struct patterns, match guards, wrapping_/overflowing_/
-              saturating_ methods, functions without a result.
+  refused     everything else, in particular: functions with type parameters of their own (`fn f<T>`), generic
+              enums (`LocalResult<T>`), closures, loops, `&mut` borrows and `&mut` parameters other than the receiver,
+              floats, chars / strings as values, `Result`, slices, iterators, trait objects, struct patterns, match
+              guards, wrapping_/overflowing_/saturating_ methods, functions without a result (other than
+              `&mut self` ones), turbofish paths.
+
+GENERIC IMPLS (read at a concrete instantiation; nothing is translated "for all Tz").
+  types       a generic struct `struct DateTime<Tz: TimeZone> { datetime: NaiveDateTime, offset: Tz::Offset }` is not
+              a type of the subset; each instantiation named by a target (`DateTime<Utc>`, `DateTime<FixedOffset>`) or
+              reached from one is a struct of its own — Lean structure `<module>.DateTime_Utc` — whose field types
+              are the declared ones with the parameters replaced.  Type arguments must be named types.  In the body of
+              an instantiated function `Tz` is the argument, `Self` / `DateTime<Tz>` the instantiated struct, and an
+              associated type `Tz::Offset` / `Self::Offset` is the right-hand side of the item `type Offset = …;` in
+              the (non-generic) `impl … for <the concrete type>` of the translated files; refused if there is none.
+  functions   `DateTime<Utc>::f` is the `f` of the impl `impl<…> DateTime<args>` whose header covers the
+              instantiation: a parameter of the impl matches any argument (consistently), a concrete argument
+              (`impl DateTime<Utc>`) only itself; inherent impls before trait impls (Rust's lookup order); more than
+              one covering impl with an `f` is refused.  Bounds and `where` clauses of the impl are not evaluated
+              (rustc has checked them for every call that exists; a target names the instantiation explicitly).  The
+              body is type-checked and translated afresh for each instantiation (`DateTime_Utc.timestamp`,
+              `DateTime_FixedOffset.timestamp` are two definitions).
+  calls       `Tz::f(…)`: the `f` of the concrete type.  `Trait::f(…)` (`TimeZone::from_offset(&self.offset)`): the
+              impl is chosen by `Self`, read off the first argument when `f` has a receiver and off the expected type
+              when `f` returns `Self`; the resolved function must belong to that trait.  `DateTime::f(…)` /
+              `DateTime { … }` without type arguments: the instantiation is the expected type (the declared result /
+              `let` / parameter type the expression flows into; the result is unified with that type afterwards, so a
+              wrong expectation is a refusal, never another reading).  A method call on a value of a concrete type
+              finds inherent methods, then methods of `impl Trait for T`, then default methods of the traits `T`
+              implements (read at `Self = T`).  Because a value whose declared type is a parameter (`Tz`,
+              `Tz::Offset`, `Self` in a default method) only has the methods of its trait bounds in Rust, while at
+              the concrete type an inherent method of the same name would win, a call on a type that is the image of
+              a parameter of the enclosing function is refused when the name is both an inherent and a trait method.
+  impls with a generic TRAIT only (`impl Mul<i32> for TimeDelta`): ordinary impls, filed under the trait's name; two
+              impls of one trait for one type (`Mul<i32>`, `Mul<i64>`) make the name ambiguous, which is refused.
+
+MUTABLE RECEIVERS.  `fn f(&mut self, args)` without a result is read as the function from the OLD value of `*self`
+(and the arguments) to the NEW value of `*self`: `self` is a re-bound local, written only by `*self = e;` (an
+assignment to a field of `self`, a `&mut` re-borrow or a call of another `&mut self` function is refused), the result
+is its final value.  (`impl AddAssign for TimeDelta`: `a += b` is `a := add_assign a b`.)
 
 SEMANTICS (the build under test: overflow checks and debug assertions ON, 64-bit `usize`).
   values      every integer is an unbounded Lean `Int` lying in the range of its Rust type; the generated definitions
@@ -79,9 +119,12 @@ SEMANTICS (the build under test: overflow checks and debug assertions ON, 64-bit
   bools       conditions are Lean `Prop`s (`a < b ∧ c`); a bool that is stored, passed or returned is `decide (…)`.
 
 NAMES.  `<module>.<Type>.<fn>` for inherent and free functions, `<module>.<Type>.<Trait>.<fn>` for a method of
-`impl Trait for Type` and for a trait default method read at `Self = Type` (module = the trait's file).  When a local
-variable of the function is called like the module of a callee (`weekday`), the callee is written with its full name
-`Chrono.Gen.<module>.…` (Lean would otherwise read `weekday.Weekday.f` as a projection of the local).
+`impl Trait for Type` and for a trait default method read at `Self = Type` (module = the trait's file).  An
+instantiated generic struct `DateTime<Utc>` is called `DateTime_Utc`.  A function named like a field of its own
+multi-field struct gets the suffix `_fn` (`NaiveDateTime.date_fn`; `NaiveDateTime.date` is the projection of the
+generated structure).  When a local variable of the function is called like the module of a callee or of a
+structure (`weekday`, `datetime`), that name is written in full, `Chrono.Gen.<module>.…` (Lean would otherwise
+read `weekday.Weekday.f` as a projection of the local).
 
 NORMAL FORM of the output: `do`-free, one `def` per function, `let` for Rust `let`s (always with the Lean type),
 `Res.bind (…) fun x =>` for each panicking step (bound to the Rust variable's name when it initialises or updates
